@@ -6,6 +6,7 @@ agent_status_wrapper.rs `get_module_status` (1024, then "...").
 `byteSlice?` is Rust's `&s[..n]` / `String::truncate(n)` with its panic condition made explicit.
 -/
 import Gpa.Model.Text
+import Gpa.Generated.Facts
 namespace Gpa.Truncate
 open Gpa.Text
 
@@ -29,8 +30,8 @@ def takeBytes : Nat → Str → Str
 /-- `truncate_at_char_boundary(s, max)` -/
 def truncateTo (cap : Nat) (s : Str) : Str := if utf8Len s ≤ cap then s else takeBytes cap s
 
-def eventCap : Nat := 4096
-def statusCap : Nat := 1024
+def eventCap : Nat := Gpa.Facts.eventMaxMessageLength
+def statusCap : Nat := Gpa.Facts.statusMaxMessageLength
 
 /-- `write_event`: the queued event's message -/
 def eventMessage (s : Str) : Str := truncateTo eventCap s
